@@ -275,8 +275,10 @@ def _close_fallthrough(stmts, target):
 
 class Inliner:
 
-  def __init__(self, tree, modname, skip=()):
+  def __init__(self, tree, modname, skip=(), nested=False):
     self.skip = set(skip)
+    self.nested = nested
+    self._owner = None
     self.tree = tree
     self.modname = modname
     ref = reference_functions().get(modname)
@@ -294,8 +296,50 @@ class Inliner:
   def is_new(self, qual):
     return self.ref is not None and qual not in self.ref
 
+  def _closure(self, name):
+    """A new closure `name` visible from the function being processed (defined in it or in a function around it), whose
+    free variables mean the same thing there."""
+    if not self.nested or self._owner is None:
+      return None
+    from .canon import _functions
+    quals = {id(fn): q for q, fn in _functions(self.tree, self.modname)}
+    encl = {}
+    for q, fn in _functions(self.tree, self.modname):
+      for n in _own_walk(fn):
+        if isinstance(n, ast.FunctionDef):
+          encl[id(n)] = fn
+    chain, cur = [], self._owner
+    while cur is not None:
+      chain.append(cur)
+      cur = encl.get(id(cur))
+    for depth, D in enumerate(chain):
+      for n in _own_walk(D):
+        if isinstance(n, ast.FunctionDef) and n.name == name and n is not self._owner:
+          q = quals.get(id(n))
+          if q is None or not self.is_new(q) or n.decorator_list:
+            return None
+          if sum(1 for x in _own_walk(D) if isinstance(x, ast.FunctionDef) and x.name == name) != 1:
+            return None
+          if any(isinstance(x, ast.Name) and x.id == name and isinstance(x.ctx, ast.Store) for x in ast.walk(D)):
+            return None
+          # free variables of the closure are D's: between D and the caller nothing may shadow them
+          params = {a.arg for a in ast.walk(n.args) if isinstance(a, ast.arg)}
+          local = {x.id for x in _own_walk(n) if isinstance(x, ast.Name) and isinstance(x.ctx, ast.Store)} | params
+          free = {x.id for x in ast.walk(n) if isinstance(x, ast.Name)} - local
+          for mid in chain[:depth]:
+            bound = {a.arg for a in ast.walk(mid.args) if isinstance(a, ast.arg)}
+            bound |= {x.id for x in _own_walk(mid) if isinstance(x, ast.Name) and isinstance(x.ctx, ast.Store)}
+            if bound & free:
+              return None
+          return n
+    return None
+
   def _callee(self, call, cls):
     f = call.func
+    if isinstance(f, ast.Name):
+      c = self._closure(f.id)
+      if c is not None:
+        return c, None
     if isinstance(f, ast.Name) and f.id in self.funcs and f.id not in self.skip:
       q = '%s.%s' % (self.modname, f.id)
       if self.is_new(q):
@@ -328,7 +372,7 @@ class Inliner:
         continue
       if isinstance(n, ast.Call):
         fn, _s = self._callee(n, cls)
-        if fn is not None and fn is not owner_fn and self._inlinable(fn) and n is not getattr(st, 'value', None):
+        if fn is not None and fn is not owner_fn and self._inlinable(fn) and (n is not getattr(st, 'value', None) or isinstance(st, ast.AugAssign)):
           return n
       stack[0:0] = list(ast.iter_child_nodes(n))
     return None
@@ -398,7 +442,12 @@ class Inliner:
       if loc in bound:
         continue
       if loc in caller_names and loc not in free:
-        renames[loc] = loc + '__in'
+        nm_ = loc + '__in'
+        k_ = 1
+        while nm_ in caller_names:
+          k_ += 1
+          nm_ = '%s__in%d' % (loc, k_)
+        renames[loc] = nm_
     return mapping, pre, renames
 
   def _expand(self, st, cls, caller_fn):
@@ -490,6 +539,7 @@ class Inliner:
     for _ in range(rounds):
       changed = False
       for owner_fn, cls in self._functions():
+        self._owner = owner_fn
         for node, fld, body in list(_bodies(owner_fn)):
           # do not touch bodies of nested function definitions here (handled as their own owner)
           i = 0
@@ -550,9 +600,29 @@ class Inliner:
               i += 1
       if not changed:
         break
+    self._owner = None
     if self.count:
       self._drop_dead_helpers()
+      if self.nested:
+        self._drop_dead_closures()
     return self.count
+
+  def _drop_dead_closures(self):
+    from .canon import _functions
+    for _ in range(3):
+      dropped = False
+      for q, D in _functions(self.tree, self.modname):
+        for node, fld, body in list(_bodies(D)):
+          for st in list(body):
+            if isinstance(st, ast.FunctionDef) and self.is_new(q + '.' + st.name) and not st.decorator_list:
+              own = {id(n) for n in ast.walk(st)}
+              if not any(isinstance(n, ast.Name) and n.id == st.name and id(n) not in own for n in ast.walk(D)):
+                body.remove(st)
+                if not body:
+                  body.append(ast.Pass())
+                dropped = True
+      if not dropped:
+        break
 
   def _drop_dead_helpers(self):
     """Private helpers that only existed to be called from where they are now inlined."""
@@ -2167,8 +2237,11 @@ def _rewrite_vars_update(body_list):
 
 
 def _drop_dead_code(body_list):
-  """Statements after an unconditional raise / return / break / continue never run."""
+  """Statements after an unconditional raise / return / break / continue never run; `L += []` does nothing."""
   for i, st in enumerate(body_list):
+    if isinstance(st, ast.AugAssign) and isinstance(st.op, ast.Add) and isinstance(st.target, ast.Name) and isinstance(st.value, ast.List) and not st.value.elts:
+      body_list[i] = ast.copy_location(ast.Pass(), st)
+      return 1
     if isinstance(st, (ast.Raise, ast.Return, ast.Break, ast.Continue)) and i + 1 < len(body_list):
       if any(isinstance(x, FN + (ast.ClassDef,)) for x in body_list[i + 1:]):
         return 0
@@ -3336,6 +3409,155 @@ def call_spelling(tree, modname):
   return count
 
 
+def restore_closure_names(tree, modname, table=None):
+  """A closure of a reference function that is missing, while a new closure of that function has (mutually best) similar
+  local bindings, was renamed: it gets its reference name back, with every reference to it inside the function."""
+  table = table if table is not None else _load_table()
+  ref_mod = table.get(modname)
+  if not ref_mod:
+    return 0
+  import difflib
+  from .canon import _functions, bindings
+  done = 0
+  for q, F in _functions(tree, modname):
+    if q not in ref_mod:
+      continue
+    ref_nested = {k.rsplit('.', 1)[1]: v for k, v in ref_mod.items() if k.rsplit('.', 1)[0] == q}
+    if not ref_nested:
+      continue
+    cur = {n.name: n for n in _own_walk(F) if isinstance(n, ast.FunctionDef)}
+    missing = [m for m in ref_nested if m not in cur]
+    new = [n for n in cur if n not in ref_nested]
+    if not missing or not new:
+      continue
+
+    def fps(seq):
+      return [fp for _n, fp in seq if not fp.startswith('param:')]
+    score = {}
+    for m in missing:
+      rb = fps(ref_nested[m])
+      for n in new:
+        gb = fps(bindings(cur[n]))
+        if rb or gb:
+          # the same bindings, in whatever order they are written
+          jac = len(set(rb) & set(gb)) / float(len(set(rb) | set(gb)))
+          score[(m, n)] = max(jac, difflib.SequenceMatcher(None, rb, gb, autojunk=False).ratio())
+    for m in missing:
+      cands = sorted(((sc, n) for (mm, n), sc in score.items() if mm == m), reverse=True)
+      if not cands or cands[0][0] < 0.5 or (len(cands) > 1 and cands[1][0] >= cands[0][0]):
+        continue
+      sc, n = cands[0]
+      if any(sc2 > sc for (m2, n2), sc2 in score.items() if n2 == n and m2 != m):
+        continue
+      if any(isinstance(x, ast.Name) and x.id == m for x in ast.walk(F)):
+        continue
+      for x in ast.walk(F):
+        if isinstance(x, ast.Name) and x.id == n:
+          x.id = m
+      cur[n].name = m
+      done += 1
+  return done
+
+
+def fuse_accumulators(tree, modname, table=None):
+  """A list that is only built to be added to another one
+       S = [a, b]; ...S.append(x)...; L += S        (L untouched in between, S not used otherwise)
+  is read as the direct form  L.append(a); L.append(b); ...L.append(x)...   (what ends up in L, and in which order, is the same)."""
+  table = table if table is not None else _load_table()
+  ref_mod = table.get(modname)
+  if not ref_mod:
+    return 0
+  from .canon import _functions
+  count = 0
+  for q, fn in _functions(tree, modname):
+    ref = ref_mod.get(q)
+    if ref is None:
+      continue
+    refnames = {n for n, _ in ref}
+    changed = True
+    while changed:
+      changed = False
+      for _fn, body in _scoped_bodies(fn):
+        if _fn is not None and _fn is not fn:
+          continue
+        for i, st in enumerate(body):
+          if not (isinstance(st, ast.Assign) and len(st.targets) == 1 and isinstance(st.targets[0], ast.Name) and isinstance(st.value, ast.List)
+                  and not any(isinstance(e, ast.Starred) for e in st.value.elts)):
+            continue
+          S = st.targets[0].id
+          if S in refnames and not S.startswith('__t_'):
+            continue
+          # the consumption
+          j = None
+          for k in range(i + 1, len(body)):
+            x = body[k]
+            if isinstance(x, ast.AugAssign) and isinstance(x.op, ast.Add) and isinstance(x.target, ast.Name) and isinstance(x.value, ast.Name) and x.value.id == S:
+              j, L = k, x.target.id
+              break
+            if isinstance(x, ast.Expr) and isinstance(x.value, ast.Call) and isinstance(x.value.func, ast.Attribute) and x.value.func.attr == 'extend' \
+                and isinstance(x.value.func.value, ast.Name) and len(x.value.args) == 1 and isinstance(x.value.args[0], ast.Name) and x.value.args[0].id == S:
+              j, L = k, x.value.func.value.id
+              break
+          if j is None or L == S:
+            continue
+          region = body[i + 1:j]
+          occ_all = [n for n in _own_walk(fn) if isinstance(n, ast.Name) and n.id == S]
+          occ_region = [n for x in region for n in ast.walk(x) if isinstance(n, ast.Name) and n.id == S]
+          if len(occ_all) != len(occ_region) + 2:
+            continue
+          if any(isinstance(n, ast.Name) and n.id == S for sc in _nested_scopes(fn) for n in ast.walk(sc)):
+            continue
+          if any(isinstance(n, ast.Name) and n.id == L for x in region for n in ast.walk(x)):
+            continue
+          # S is only appended to / extended in the region
+          uses = []
+          okr = True
+
+          def scan(stmts, depth):
+            nonlocal okr
+            for x in stmts:
+              if isinstance(x, (ast.Return,)) or (isinstance(x, (ast.Break, ast.Continue)) and depth == 0):
+                okr = False
+              if isinstance(x, FN + (ast.ClassDef,)):
+                continue
+              if isinstance(x, ast.Expr) and isinstance(x.value, ast.Call) and isinstance(x.value.func, ast.Attribute) and isinstance(x.value.func.value, ast.Name) \
+                  and x.value.func.value.id == S and x.value.func.attr in ('append', 'extend') \
+                  and not any(isinstance(n, ast.Name) and n.id == S for a in x.value.args for n in ast.walk(a)):
+                uses.append(x.value.func.value)
+                continue
+              if isinstance(x, ast.AugAssign) and isinstance(x.op, ast.Add) and isinstance(x.target, ast.Name) and x.target.id == S \
+                  and not any(isinstance(n, ast.Name) and n.id == S for n in ast.walk(x.value)):
+                uses.append(x.target)
+                continue
+              d2 = depth + 1 if isinstance(x, (ast.For, ast.While)) else depth
+              for fld in ('body', 'orelse', 'finalbody'):
+                sub = getattr(x, fld, None)
+                if isinstance(sub, list):
+                  scan(sub, d2)
+              for h in getattr(x, 'handlers', []) or []:
+                scan(h.body, d2)
+          scan(region, 0)
+          if not okr or len(uses) != len(occ_region):
+            continue
+          for n in uses:
+            n.id = L
+          heads = [ast.Expr(value=ast.Call(func=ast.Attribute(value=ast.Name(id=L, ctx=ast.Load()), attr='append', ctx=ast.Load()), args=[e], keywords=[]))
+                   for e in st.value.elts]
+          for h in heads:
+            ast.copy_location(h, st)
+          body[j:j + 1] = []
+          body[i:i + 1] = heads
+          if not body:
+            body.append(ast.Pass())
+          ast.fix_missing_locations(fn)
+          count += 1
+          changed = True
+          break
+        if changed:
+          break
+  return count
+
+
 def lifted_candidates(tree, modname, table=None):
   """Names of new module-level functions that look like a reference closure that is missing now."""
   table = table if table is not None else _load_table()
@@ -3441,6 +3663,7 @@ def post_canon(tree, modname):
       canonicalise(tree, modname)
       b += b0
     a1 = inline_temps(tree, modname)
+    a1 += fuse_accumulators(tree, modname)
     a1 += match_reference_shape(tree, modname)
     b1 = loop_forms(tree)
     b1 += idioms(tree) if (a1 or b1) else 0
@@ -3474,6 +3697,8 @@ def normalize(tree, modname):
     a += Inliner(tree, modname, skip=cands).run()
     a += unlift(tree, modname)
   a += Inliner(tree, modname).run()
+  a += restore_closure_names(tree, modname)
+  a += Inliner(tree, modname, nested=True).run()
   b = idioms(tree)
   if a:
     b += loop_forms(tree)
